@@ -133,7 +133,7 @@ class FetchAttribute(Parseable[bytes]):
     _partial_pattern = re.compile(br'< *(\d+) *\. *(\d+) *>')
 
     _header_atom_pattern = re.compile(
-        br'[\x21\x23\x24\x26\x27\x2B-\x5B\x5E-\x7A\x7C\x7E]+')
+        br'[\x21\x23\x24\x26\x27\x2B-\x5B\x5E-\x7A\x7C-\x7E]+')
     _sec_part_pattern = re.compile(br'([1-9]\d* *(?:\. *[1-9]\d*)*) *(\.)? *')
 
     def __init__(self, attribute: bytes,
